@@ -209,6 +209,8 @@ class IDMan(Set[int]):
 
     def discard(self, element: int) -> None:
         """Return the specified ID for others to use, or do nothing if already removed."""
+        if element not in self._used:
+            return  # Never allocated (or already returned), the search position must not move.
         self._used.discard(element)
         if element < self.search_pos:
             self.search_pos = element
